@@ -250,7 +250,7 @@ func runMsg(mc *msgCase) ([]opObs, []failure) {
 		if b := allocBound(o.family(), pulled+16); out.Alloc > b {
 			fails = append(fails, failure{"alloc", fmt.Sprintf("%s(%d) enc=%v allocated %d bytes after %d bytes were received (bound %d)", o.Op, o.N, mc.Enc, out.Alloc, pulled, b)})
 		}
-		if out.Dur > 1500*time.Millisecond {
+		if out.Dur > 3*time.Second {
 			fails = append(fails, failure{"slow", fmt.Sprintf("%s(%d) enc=%v ran %v on a %d-byte input", o.Op, o.N, mc.Enc, out.Dur, total)})
 		}
 		if consumed < 0 || consumed > bufBefore+pulledNow {
@@ -277,7 +277,7 @@ func runMsg(mc *msgCase) ([]opObs, []failure) {
 			if o.N > 0 {
 				need = int(o.N)
 				if mc.Enc {
-					capBytes = 7*int(o.N) + 32
+					capBytes = 6*int(o.N) + 32
 				} else {
 					capBytes = int(o.N) + 8
 				}
@@ -536,7 +536,7 @@ func genMessageLevel(c *core.Ctx) {
 	if !quick {
 		maxCuts = 4
 	}
-	caps := []int{1, 2, 8, 64, 1024}
+	caps := []int{1, 8, 64, 1024}
 	for _, enc := range []bool{false, true} {
 		// ---- S1: single strings, length prefix / terminator / size mutations ----
 		for _, cp := range caps {
@@ -571,6 +571,9 @@ func genMessageLevel(c *core.Ctx) {
 								{{Op: "skip"}, {Op: "str"}},
 							} {
 								if quick && oi > 0 && (vi > 0 || (pi > 0 && (pi+oi+pl)%4 != 0)) {
+									continue
+								}
+								if !quick && oi > 0 && vi > 1 {
 									continue
 								}
 								addMsgCase(c, &msgCase{Enc: enc, Frames: fr, Ops: ops})
@@ -616,7 +619,7 @@ func genMessageLevel(c *core.Ctx) {
 		adCaps := []int64{0, 16, 64, 256, 4096}
 		nAds := 6
 		if !quick {
-			nAds = 60
+			nAds = 14
 		}
 		rot := 0
 		for ai := 0; ai < nAds; ai++ {
@@ -760,6 +763,9 @@ func gen(c *core.Ctx) error {
 	if !aborted {
 		genText(c)
 	}
+	if !aborted {
+		genSci(c)
+	}
 	if aborted {
 		c.Note("generation stopped early: a call did not return within the spin bound (reported as an oracle failure)")
 	}
@@ -791,6 +797,15 @@ func replay(raw json.RawMessage) error {
 		}
 		_, fails := runWire(&wc)
 		if len(fails) > 0 {
+			return fmt.Errorf("%s: %s", fails[0].key, fails[0].desc)
+		}
+		return nil
+	case "sci":
+		var sc sciCase
+		if err := json.Unmarshal(raw, &sc); err != nil {
+			return err
+		}
+		if fails := runSci(&sc); len(fails) > 0 {
 			return fmt.Errorf("%s: %s", fails[0].key, fails[0].desc)
 		}
 		return nil
